@@ -13,10 +13,11 @@
    What is NOT covered by a theorem (compared differentially on generated API programs only,
    harness/props/c10.py): argument parsing, the attribute protocol / slot wrappers around the
    kernels, the Python code both implementations share. *)
-From Coq Require Import List NArith Bool ZArith Arith.
+From Coq Require Import List NArith Bool ZArith Arith Lia.
 Import ListNotations.
 From ZI Require Import Model.Adapt Proofs.Adapt.
 From ZI Require Import Model.Ro Model.Adapter Model.Lookup Model.CLookup Spec.EntryPoints Proofs.CLookup.
+From ZI Require Import Model.CVerify Proofs.CVerify.
 (* imported last: Model/CTwins.v and Model/Adapt.v both call their outcome type [res] *)
 From ZI Require Import Lib.Str Lib.Util Model.Order Proofs.Order Model.CTwins Proofs.CTwins.
 
@@ -163,6 +164,70 @@ Theorem C10_lookupAll_subscriptions_eq_py : forall ua us c req p sp,
 Proof. intros; split; [apply c_lookupAll_eq_py | apply c_subscriptions_eq_py]. Qed.
 Print Assumptions C10_lookupAll_subscriptions_eq_py.
 
+(* ---------------------------------------------------------------- 7b. the VerifyingBase pair *)
+
+(* Model/CVerify.v.  [e] is the environment of a call (current _generation of every registry, what
+   registry.ro[1:] is), [s] the lookup object (caches + _verify_ro / _verify_generations).
+   The C entry points call _verify once up front; the Python ones inside _getcache — after the
+   "name is not a string" test and once more in the nested self.lookup(...). *)
+
+(* _verify itself, on an object whose changed() ran at least once *)
+Theorem C10_verifying_verify_eq_py : forall e s, inited s -> py_verify e s = Some (c_verify e s).
+Proof. exact py_verify_inited. Qed.
+Print Assumptions C10_verifying_verify_eq_py.
+
+(* latent: an object whose changed() never ran (slots unset): C runs changed(), Python raises
+   AttributeError *)
+Theorem C10_verifying_uninitialised_refuted :
+  exists e s, ~ inited s /\ py_verify e s = None /\
+              c_verify e s = mkVS empty_caches (Some (e_ro_tail e)) (Some (gens e (e_ro_tail e))).
+Proof.
+  exists (mkEnv (fun _ => 0) [1]), (mkVS empty_caches None None). repeat split.
+  intros (ro & g & H & _). discriminate.
+Qed.
+Print Assumptions C10_verifying_uninitialised_refuted.
+
+(* every entry point (lookup, lookup1, adapter_hook, queryAdapter, lookupAll, subscriptions, and
+   changed() from outside), every argument shape (name omitted / string / not a string, default
+   omitted / None / object, required resolved or raising), every cache state, every environment:
+   the same answer, and afterwards the two objects differ at most by a _verify still to be done *)
+Theorem C10_verifying_entry_points_eq_py : forall ul ua us call e s c, inited s ->
+  snd (c_vstep ul ua us call e s c) = snd (py_vstep ul ua us call e s c) /\
+  c_verify e (fst (c_vstep ul ua us call e s c)) = c_verify e (fst (py_vstep ul ua us call e s c)).
+Proof.
+  intros ul ua us call e s c Hi.
+  destruct (vstep_eq ul ua us call e s s c Hi eq_refl) as (H1 & H2 & _). split; assumption.
+Qed.
+Print Assumptions C10_verifying_entry_points_eq_py.
+
+(* when _verify runs relative to the errors: a name that is not a string gives ValueError in both,
+   C having verified, Python not; a lazy [required] that raises is resolved after _verify in both *)
+Theorem C10_verifying_error_order : forall ul e s req x p d, inited s ->
+  c_vb_lookup ul e s req p (Some NotAString) d = (c_verify e s, VRet CValueError) /\
+  py_vb_lookup ul e s req p (Some NotAString) d = (s, VRet CValueError) /\
+  c_vb_lookup ul e s (RqRaise x) p None d = (c_verify e s, VReqError x) /\
+  py_vb_lookup ul e s (RqRaise x) p None d = (c_verify e s, VReqError x).
+Proof.
+  intros ul e s req x p d Hi. unfold c_vb_lookup, py_vb_lookup. cbn [c_name_bad cname].
+  rewrite (py_verify_inited e s Hi). repeat split.
+Qed.
+Print Assumptions C10_verifying_error_order.
+
+(* a skipped _verify is made up for by the next one, as long as generations only grow and the
+   order below a registry only changes together with a generation in it *)
+Theorem C10_verifying_pending_verify_unobservable : forall e e' s, env_le e e' -> snapshot_ok e s ->
+  c_verify e' (c_verify e s) = c_verify e' s.
+Proof. exact verify_absorbs. Qed.
+Print Assumptions C10_verifying_pending_verify_unobservable.
+
+(* whole programs: any sequence of calls, each in the environment of its time (base registries are
+   mutated and re-based in between: generations grow), answers the same call by call *)
+Theorem C10_verifying_programs_eq_py : forall ul ua us call prog e s,
+  inited s -> snapshot_ok e s -> env_chain e prog ->
+  c_vrun ul ua us call s prog = py_vrun ul ua us call s prog.
+Proof. intros. apply (vrun_eq_gen ul ua us call prog e s s); auto. Qed.
+Print Assumptions C10_verifying_programs_eq_py.
+
 (* ---------------------------------------------------------------- 8. calling an interface (re-export, C14) *)
 
 (* IB__call__ = InterfaceBase.__call__ for every chain of interface classes (custom __adapt__
@@ -234,3 +299,34 @@ Example C10_witness_richcompare_x :
   py_method_x OpLt (VStr [73%N]) (VStr [109%N]) (VInt 5) (VStr [109%N]) = XTypeErr /\
   c_richcompare_x OpLt (VStr [73%N]) (VStr [109%N]) (VInt 5) (VStr [109%N]) = XTypeErr.
 Proof. repeat split; discriminate. Qed.
+
+(* a verifying lookup object over one base registry (id 1): a cached miss, a generation bump in the
+   base, a call with a non-string name (C verifies, Python does not), then the lookup again *)
+Example C10_witness_verifying :
+  let ul := fun (req : list spec) (p : spec) (n : Adapter.name) => if Nat.eqb p 2 then Some (mkV 7 7) else None in
+  let ua := fun (_ : list spec) (_ : spec) => @nil (Adapter.name * value) in
+  let us := fun (_ : list spec) (_ : option spec) => @nil value in
+  let call := fun (_ : value) (_ : list nat) => @None nat in
+  let e0 := mkEnv (fun _ => 0) [1] in
+  let e1 := mkEnv (fun r => if Nat.eqb r 1 then 1 else 0) [1] in
+  let s0 := mkVS empty_caches (Some [1]) (Some [0]) in
+  let prog := [(e0, VLookup (RqOk [3]) 2 None DObj); (e0, VLookup (RqOk [3]) 5 None DObj);
+               (e1, VLookup (RqOk [3]) 2 (Some NotAString) DObj); (e1, VLookup (RqRaise 4) 2 None DObj);
+               (e1, VLookup1 3 5 None DObj)] in
+  inited s0 /\ snapshot_ok e0 s0 /\ env_chain e0 prog /\
+  c_vrun ul ua us call s0 prog =
+    [ORet (VRet (CRet (PValue (mkV 7 7)))); ORet (VRet (CRet PDefault)); ORet (VRet CValueError);
+     ORet (VReqError 4); ORet (VRet (CRet PDefault))] /\
+  py_vrun ul ua us call s0 prog = c_vrun ul ua us call s0 prog /\
+  (* after the ValueError call the C object has dropped its caches, the Python one has not (yet) *)
+  fst (c_vb_lookup ul e1 (fst (c_vb_lookup ul e0 s0 (RqOk [3]) 5 None DObj)) (RqOk [3]) 2 (Some NotAString) DObj)
+    = mkVS empty_caches (Some [1]) (Some [1]) /\
+  vs_vgen (fst (py_vb_lookup ul e1 (fst (py_vb_lookup ul e0 s0 (RqOk [3]) 5 None DObj)) (RqOk [3]) 2
+                             (Some NotAString) DObj)) = Some [0].
+Proof.
+  cbv zeta. repeat split; try reflexivity.
+  all: try (exists [1], [0]; split; reflexivity).
+  all: try (cbn; constructor; [lia | constructor]).
+  all: try (intros r; cbn; try destruct (Nat.eqb r 1); lia).
+  all: try (intros _; reflexivity).
+Qed.
